@@ -3,29 +3,14 @@
 harness/drv_codec.c -> trace/CodecTrace (model/CodecSpec)."""
 import os
 import random
-import tempfile
 import threading
 
 from vlib import core, gen_codec
 
-# core.tlc names its metadir "<spec>-<pid>-<ms>": parallel shards of one spec started in the same
-# millisecond collide (reported to the lead).  Until core.py is fixed, give every run its own directory.
-if not getattr(core.tlc, "_unique_md", False):
-    _tlc0 = core.tlc
-
-    def _tlc(spec, cfg=None, **kw):
-        if not kw.get("metadir"):
-            base = os.path.join(core.BUILD, "tlc")
-            os.makedirs(base, exist_ok=True)
-            kw["metadir"] = tempfile.mkdtemp(prefix="C07-", dir=base)
-        return _tlc0(spec, cfg, **kw)
-    _tlc._unique_md = True
-    core.tlc = _tlc
-
 DRV = ("codec", ["drv_codec.c"])
 SPEC = "trace/CodecTrace.tla"
 READS = ("bn_read_bin", "bn_read_raw", "bn_read_str", "fp_read_bin", "fp_read_str", "fp2_read_bin",
-         "fp12_read_bin", "ep_read_bin", "ep_upk", "ep2_read_bin")
+         "fp12_read_bin", "ep_read_bin", "ep_upk", "ep2_read_bin", "ed_read_bin")
 
 
 def nontrivial(e):
@@ -42,7 +27,7 @@ def probe(cfg, wd, specs=None):
     """which curves does ep_param_set accept in this build, and their parameters (input discovery)"""
     bdir = core.build_relic(cfg)
     exe = core.cc_harness(cfg, DRV[0], DRV[1], bdir=bdir)
-    d = os.path.join(wd, "probe-" + cfg)
+    d = os.path.join(wd, "probe-" + cfg + ("-" + specs[0][:2] if specs else ""))
     os.makedirs(d, exist_ok=True)
     cp = os.path.join(d, "cases.txt")
     with open(cp, "w") as f:
@@ -62,7 +47,7 @@ def probe_pf(cfg, wd, rng, quick):
     exe = core.cc_harness(cfg, DRV[0], DRV[1], bdir=bdir)
     d = os.path.join(wd, "probe2-" + cfg)
     os.makedirs(d, exist_ok=True)
-    evs = core.read_ndjson(os.path.join(wd, "probe-" + cfg, "trace.ndjson"))
+    evs = core.read_ndjson(os.path.join(wd, "probe-" + cfg + "-pf", "trace.ndjson"))
     e0 = [e for e in evs if e.get("op") == "curve_probe" and e.get("ok") == 1][0]
     cv = cs[0]
     rinv = pow(1 << (8 * e0["w"] * e0["fd"]), -1, cv.p) if e0["mont"] == 1 else 1
@@ -80,6 +65,37 @@ def probe_pf(cfg, wd, rng, quick):
             v = [int.from_bytes(bytes(o[1 + i * cv.fb:1 + (i + 1) * cv.fb]), "big") for i in range(4)]
             pts.append(((v[0], v[1]), (v[2], v[3])))
     return pf, pts
+
+
+def probe_ed(cfg, wd, rng, quick):
+    """the Edwards curve of the build (if any): parameters and a few valid points from the uncompressed writer"""
+    bdir = core.build_relic(cfg)
+    exe = core.cc_harness(cfg, DRV[0], DRV[1], bdir=bdir)
+    d = os.path.join(wd, "probe-ed-" + cfg)
+    os.makedirs(d, exist_ok=True)
+    cp = os.path.join(d, "cases.txt")
+    open(cp, "w").write("curve_probe ed\n")
+    evs = [e for e in core.run_driver(exe, cp, os.path.join(d, "trace.ndjson"), timeout=120) if e.get("ok") == 1]
+    if not evs:
+        return None, []
+    e0 = evs[0]
+    p = gen_codec.from_le(e0["p"])
+    rinv = pow(1 << (8 * e0["w"] * e0["fd"]), -1, p) if e0["mont"] == 1 else 1
+    fb = e0["fb"]
+    n = gen_codec.from_le(e0["n"]["d"])
+    ed = dict(p=p, fb=fb, n=n, a=gen_codec.from_le(e0["ea"]) * rinv % p, d=gen_codec.from_le(e0["ed"]) * rinv % p)
+    ks = [1, 2, 3, n - 1] + [rng.randrange(1, n) for _ in range(3 if quick else 12)]
+    with open(cp, "w") as f:
+        for k in ks:
+            f.write("ed_write_bin ed m%x 0 %d\n" % (k, 2 * fb + 1))
+    pts = []
+    for e in core.run_driver(exe, cp, os.path.join(d, "trace2.ndjson"), timeout=300):
+        o = e.get("out", [])
+        if e.get("op") == "ed_write_bin" and e.get("err") == 0 and len(o) == 2 * fb + 1 and o[0] == 4:
+            y = int.from_bytes(bytes(o[1:1 + fb]), "big")
+            x = int.from_bytes(bytes(o[1 + fb:]), "big")
+            pts.append((x, y))
+    return ed, pts
 
 
 def MC_RUNS(quick):
@@ -168,6 +184,9 @@ def run(tier, seed):
             pf, pts2 = probe_pf(cfg, wd, rng, quick)
             if pf and pts2:
                 cases += gen_codec.gen_ep2(pf, pts2, rng, tier)
+            ed, ptse = probe_ed(cfg, wd, rng, quick)
+            if ed and ptse:
+                cases += gen_codec.gen_ed(ed, ptse, rng, tier)
             if cases:
                 conf.run(cfg, cfg, DRV[0], DRV[1], cases, SPEC, nontrivial=nontrivial, min_per_shard=300)
     th.join()
